@@ -123,6 +123,20 @@ def run_case(case):
             chk("apply_to", tn.dense(r), mA @ va, ttol * (1 + np.linalg.norm(mA, 2)), desc)
             unchanged("apply_to", a, va, desc)
             unchanged("apply_to", A, mA, desc, is_op=True)
+            # the RESULT is an MPS like any other: what it declares about itself must be true, or every centre-dependent operation on it is wrong
+            ce = tn.canonical_errors(r)
+            cnt["ops_checked"] += 1
+            if ce is not None and max(ce) > 1e-8 * (1 + np.linalg.norm(mA @ va)):
+                viol.append({"key": "C11:apply_to-result-not-canonical-at-declared-centre", "msg": f"{desc}: centre {r.orthogonality_center} dev {max(ce):.2e}"})
+            chk("apply_to-then-norm", float(r.norm()), np.linalg.norm(tn.dense(r)), tol0 * 10, desc)
+            if np.linalg.norm(tn.dense(r)) > 1e-6:
+                rn = (1.0 / float(np.linalg.norm(tn.dense(r)))) * r
+                vr = tn.dense(rn)
+                one = torch.zeros(d, d, dtype=torch.complex128)
+                one[1, 1] = 1.0
+                occ_want = np.array([np.real(np.vdot(vr, tn.site_op(one.numpy(), i, n, d) @ vr)) for i in range(n)]) if n <= 6 else None
+                if occ_want is not None:
+                    chk("apply_to-then-expect_batch", rn.expect_batch(torch.stack([one])).real.numpy().reshape(-1), occ_want, tol0 * 100, desc)
             if r.eigenstates != a.eigenstates:
                 viol.append({"key": "C11:apply_to-loses-eigenstates", "msg": desc})
             chk("mpo-expect", A.expect(a).numpy(), np.vdot(va, mA @ va), tol0 * (1 + np.linalg.norm(mA, 2) * np.linalg.norm(va) ** 2), desc)
